@@ -58,6 +58,35 @@ type c03Oracle struct {
 	Gunzip     []c03Gunzip `json:"gunzip"`     // x -> gzip.Reader(x)
 }
 
+// c03Edit is the `header` section of the ResponseAdaptor (histories only).
+type c03Edit struct {
+	Del []string    `json:"del"`
+	Set [][2]string `json:"set"`
+	Add [][2]string `json:"add"`
+}
+
+// c03Cache is the pool's memoryCache (histories only; expiration is 1h: no step of a
+// history ever sees an entry expire).
+type c03Cache struct {
+	On      bool     `json:"on"`
+	Codes   []int    `json:"codes"`
+	Methods []string `json:"methods"`
+	Max     int      `json:"max"`
+}
+
+// c03HistIn: several requests, one after the other, against ONE pipeline instance.
+// Every step is a complete c03In (the configuration fields of step 0 count).
+type c03HistIn struct {
+	Cache c03Cache `json:"cache"`
+	Edit  c03Edit  `json:"edit"`
+	Steps []c03In  `json:"steps"`
+}
+
+type c03HistObs struct {
+	Steps []c03Obs `json:"steps"`
+	Panic string   `json:"panic"`
+}
+
 type c03In struct {
 	Method   string      `json:"method"`
 	Target   string      `json:"target"`
@@ -176,7 +205,11 @@ func c03Decode(hs [][2]string, body []byte) ([]byte, bool) {
 	return nil, false
 }
 
-func c03FillOracle(in *c03In) {
+func c03FillOracle(in *c03In) { c03FillOracleExt(in, nil) }
+
+// c03FillOracleExt: extra = further bodies the gateway may hold while serving this
+// request (histories: a cache hit delivers the body of an earlier step).
+func c03FillOracleExt(in *c03In, extra [][]byte) {
 	o := &in.O
 	*o = c03Oracle{}
 	seen := map[string]bool{}
@@ -233,6 +266,9 @@ func c03FillOracle(in *c03In) {
 	add([]byte(in.RA.Body))
 	add([]byte(in.RS.Body))
 	add(nil)
+	for _, b := range extra {
+		add(b)
+	}
 	for round := 0; round < 2; round++ {
 		for _, b := range append([][]byte(nil), set...) {
 			if g, ok := c03GunzipOf(b); ok {
@@ -256,6 +292,10 @@ func c03FillOracle(in *c03In) {
 // ---------------------------------------------------------------------------
 
 func c03PipelineYAML(in *c03In, addr string) string {
+	return c03PipelineYAMLExt(in, addr, nil, nil)
+}
+
+func c03PipelineYAMLExt(in *c03In, addr string, mc *c03Cache, ed *c03Edit) string {
 	var w strings.Builder
 	w.WriteString("name: p\nkind: Pipeline\nfilters:\n")
 	adapt := func(kind, name string, a c03Adapt) {
@@ -272,6 +312,26 @@ func c03PipelineYAML(in *c03In, addr string) string {
 		if a.Decompress {
 			w.WriteString("  decompress: gzip\n")
 		}
+		if kind == "ResponseAdaptor" && ed != nil && len(ed.Del)+len(ed.Set)+len(ed.Add) > 0 {
+			w.WriteString("  header:\n")
+			if len(ed.Del) > 0 {
+				w.WriteString("    del:\n")
+				for _, k := range ed.Del {
+					fmt.Fprintf(&w, "    - %s\n", strconv.Quote(k))
+				}
+			}
+			for _, sec := range []struct {
+				name string
+				kvs  [][2]string
+			}{{"set", ed.Set}, {"add", ed.Add}} {
+				if len(sec.kvs) > 0 {
+					fmt.Fprintf(&w, "    %s:\n", sec.name)
+					for _, kv := range sec.kvs {
+						fmt.Fprintf(&w, "      %s: %s\n", strconv.Quote(kv[0]), strconv.Quote(kv[1]))
+					}
+				}
+			}
+		}
 	}
 	adapt("RequestAdaptor", "reqadaptor", in.RA)
 	w.WriteString("- name: proxy\n  kind: Proxy\n")
@@ -282,17 +342,17 @@ func c03PipelineYAML(in *c03In, addr string) string {
 		fmt.Fprintf(&w, "  compression:\n    minLength: %d\n", in.MinLen)
 	}
 	_, port, _ := net.SplitHostPort(addr)
-	fmt.Fprintf(&w, "  pools:\n  - servers:\n    - url: http://%s:%s\n      keepHost: %v\n", in.SrvHost, port, in.KeepHost)
+	w.WriteString("  pools:\n  - ")
+	if mc != nil && mc.On {
+		fmt.Fprintf(&w, "memoryCache:\n      expiration: 1h\n      maxEntryBytes: %d\n      codes: %s\n      methods: %s\n    ",
+			mc.Max, strings.ReplaceAll(fmt.Sprint(mc.Codes), " ", ", "), "["+strings.Join(mc.Methods, ", ")+"]")
+	}
+	fmt.Fprintf(&w, "servers:\n    - url: http://%s:%s\n      keepHost: %v\n", in.SrvHost, port, in.KeepHost)
 	adapt("ResponseAdaptor", "respadaptor", in.RS)
 	return w.String()
 }
 
-func c03Run(in c03In) (obs c03Obs) {
-	defer func() {
-		if r := recover(); r != nil {
-			obs.Panic = fmt.Sprint(r)
-		}
-	}()
+func c03Script(in *c03In) []byte {
 	var raw bytes.Buffer
 	fmt.Fprintf(&raw, "HTTP/1.1 %d Scripted\r\n", in.RespStatus)
 	for _, kv := range in.RespHeaders {
@@ -309,20 +369,13 @@ func c03Run(in c03In) (obs c03Obs) {
 		raw.WriteString("Connection: close\r\n\r\n")
 		raw.Write(in.RespBody)
 	}
-	be := c07StartBackend(raw.Bytes())
-	closed := false
-	defer func() {
-		if !closed {
-			be.Close()
-		}
-	}()
-	cmax := 0
-	if in.CStream {
-		cmax = -1
-	}
-	fr := c07StartFront(c07ServerYAML(int64(cmax), 0), c03PipelineYAML(&in, be.Addr()))
-	defer fr.Close()
+	return raw.Bytes()
+}
 
+// c03Serve sends the request of in through the front and reports what the client
+// received and what the backend received since the call started.
+func c03Serve(fr *c07Front, be *c07Backend, in *c03In) (obs c03Obs) {
+	before := len(be.Seen())
 	var req bytes.Buffer
 	fmt.Fprintf(&req, "%s %s HTTP/1.1\r\nHost: %s\r\n", in.Method, in.Target, in.Host)
 	for _, kv := range in.Headers {
@@ -339,8 +392,8 @@ func c03Run(in c03In) (obs c03Obs) {
 		req.WriteString("\r\n")
 	}
 	r := c07Exchange(fr.Addr(), req.Bytes(), false)
-	seen := be.Close()
-	closed = true
+	be.Quiesce()
+	seen := be.Seen()[before:]
 
 	obs.Got, obs.Status, obs.Kind, obs.Declared, obs.FrameOK = r.Got, r.Status, r.Kind, r.Declared, r.FrameOK
 	obs.Headers = c03CanonHeaders(r.Headers)
@@ -373,6 +426,48 @@ func c03Run(in c03In) (obs c03Obs) {
 		obs.BBody = append([]byte{}, s.Body...)
 		obs.BKind = s.Kind
 		obs.BDec, obs.BDecOK = c03Decode(s.Headers, s.Body)
+	}
+	return
+}
+
+func c03Run(in c03In) (obs c03Obs) {
+	defer func() {
+		if r := recover(); r != nil {
+			obs.Panic = fmt.Sprint(r)
+		}
+	}()
+	be := c07StartBackend(c03Script(&in))
+	defer be.Close()
+	cmax := 0
+	if in.CStream {
+		cmax = -1
+	}
+	fr := c07StartFront(c07ServerYAML(int64(cmax), 0), c03PipelineYAML(&in, be.Addr()))
+	defer fr.Close()
+	return c03Serve(fr, be, &in)
+}
+
+func c03RunHist(h *c03HistIn) (obs c03HistObs) {
+	defer func() {
+		if r := recover(); r != nil {
+			obs.Panic = fmt.Sprint(r)
+		}
+	}()
+	if len(h.Steps) == 0 {
+		return
+	}
+	be := c07StartBackend(nil)
+	defer be.Close()
+	first := &h.Steps[0]
+	cmax := 0
+	if first.CStream {
+		cmax = -1
+	}
+	fr := c07StartFront(c07ServerYAML(int64(cmax), 0), c03PipelineYAMLExt(first, be.Addr(), &h.Cache, &h.Edit))
+	defer fr.Close()
+	for i := range h.Steps {
+		be.SetRaw(c03Script(&h.Steps[i]))
+		obs.Steps = append(obs.Steps, c03Serve(fr, be, &h.Steps[i]))
 	}
 	return
 }
@@ -664,16 +759,130 @@ func c03GenBoundary(r *vfRand, j int) (in c03In) {
 	return
 }
 
+// c03GenHist: a history of requests against one pipeline whose pool has a memoryCache;
+// the same cacheable request is repeated (miss, then hits) interleaved with other
+// resources, uncacheable requests and backend answers that must not be stored; every
+// step has its own backend answer, so that a hit is recognisable as the FIRST answer.
+func c03GenHist(r *vfRand, adv bool) (h c03HistIn) {
+	h.Cache.On = adv || r.Chance(7, 8)
+	h.Cache.Codes = [][]int{{200}, {200, 404}, {200, 301, 404}}[r.Intn(3)]
+	h.Cache.Methods = [][]string{{"GET"}, {"GET"}, {"GET", "POST"}}[r.Intn(3)]
+	h.Cache.Max = r.PickInt(40, 1000, 100000)
+	var cfg c03In
+	cfg.SrvHost, cfg.MinLen = "127.0.0.1", r.PickInt(-1, -1, 0, 100)
+	cfg.SStream = !adv && r.Chance(1, 10)
+	switch r.Intn(7) {
+	case 0, 1:
+		cfg.RS = c03Adapt{On: true, Compress: true}
+	case 2:
+		cfg.RS = c03Adapt{On: true, Body: "adapted by the response adaptor"}
+	case 3:
+		cfg.RS = c03Adapt{On: true, Decompress: true}
+	case 4:
+		cfg.RS = c03Adapt{On: true, Body: "adapted then compressed", Compress: true}
+	case 5:
+		cfg.RS = c03Adapt{On: true}
+	}
+	if adv && !cfg.RS.On {
+		cfg.RS = c03Adapt{On: true, Compress: r.Bool()}
+	}
+	if cfg.RS.On && r.Chance(2, 3) {
+		if r.Chance(1, 2) {
+			h.Edit.Add = append(h.Edit.Add, [2]string{r.PickStr("X-Hit", "x-resp", "Set-Cookie"), "added"})
+		}
+		if r.Chance(1, 3) {
+			h.Edit.Set = append(h.Edit.Set, [2]string{r.PickStr("X-Set", "Server", "X-Resp"), "set"})
+		}
+		if r.Chance(1, 3) {
+			h.Edit.Del = append(h.Edit.Del, r.PickStr("X-Resp", "ETag", "x-absent"))
+		}
+	}
+	type res struct{ host, path string }
+	pool := []res{{"front.test", "/r/a"}, {"front.test", "/r/b"}, {"other.test", "/r/a"}, {"front.test", "/r/a%20b"}}
+	main := pool[r.Intn(len(pool))]
+	n := r.Range(3, 8)
+	for i := 0; i < n; i++ {
+		in := cfg
+		rs := main
+		if i > 0 && r.Chance(1, 5) {
+			rs = pool[r.Intn(len(pool))]
+		}
+		in.Host, in.Target = rs.host, rs.path
+		if r.Chance(1, 6) {
+			in.Target += "?q=" + strconv.Itoa(i) // the query is not part of the cache key
+		}
+		in.Method = r.PickStr("GET", "GET", "GET", "GET", "POST", "PUT")
+		in.Headers = [][2]string{{"X-Trace", "t-" + strconv.Itoa(i)}}
+		if ae := r.PickStr("gzip", "gzip", "", "identity"); ae != "" {
+			in.Headers = append(in.Headers, [2]string{"Accept-Encoding", ae})
+		}
+		if r.Chance(1, 6) {
+			in.Headers = append(in.Headers, [2]string{"Cache-Control", r.PickStr("no-cache", "no-store", "max-age=0", "no-cache, no-store")})
+		}
+		in.ReqEnc = "none"
+		if in.Method != "GET" {
+			in.ReqEnc, in.ReqBody = "cl", []byte("req-"+strconv.Itoa(i))
+		}
+		in.RespStatus = r.PickInt(200, 200, 200, 200, 404, 301, 500)
+		in.RespEnc, in.RespChunk = r.PickStr("cl", "cl", "chunked"), 100
+		body := append([]byte("answer-"+strconv.Itoa(i)+" "), c03Text(r, r.PickInt(0, 20, 60, 150, 700))...)
+		in.RespHeaders = [][2]string{{"Content-Type", "text/plain; charset=utf-8"}, {"X-Resp", "r" + strconv.Itoa(i)}}
+		if r.Chance(1, 3) {
+			in.RespHeaders = append(in.RespHeaders, [2]string{"ETag", "\"e" + strconv.Itoa(i) + "\""})
+		}
+		if r.Chance(1, 8) {
+			in.RespHeaders = append(in.RespHeaders, [2]string{"Cache-Control", r.PickStr("no-store", "must-revalidate", "max-age=60", "private, no-cache")})
+		}
+		if r.Chance(1, 5) {
+			body = c03Gzip(body)
+			in.RespHeaders = append(in.RespHeaders, [2]string{"Content-Encoding", "gzip"})
+		}
+		in.RespBody = body
+		if i == 0 && r.Chance(5, 6) { // the first answer is usually one the cache keeps
+			in.Method, in.ReqEnc, in.ReqBody, in.RespStatus = "GET", "none", nil, 200
+			in.Headers = in.Headers[:1]
+			if r.Bool() {
+				in.Headers = append(in.Headers, [2]string{"Accept-Encoding", "gzip"})
+			}
+			in.RespHeaders = in.RespHeaders[:2]
+			in.RespBody = []byte("answer-0 " + string(c03Text(r, r.PickInt(0, 20, 60))))
+		}
+		h.Steps = append(h.Steps, in)
+	}
+	c03FillHistOracles(&h)
+	return
+}
+
+func c03FillHistOracles(h *c03HistIn) {
+	var all [][]byte
+	for i := range h.Steps {
+		all = append(all, h.Steps[i].RespBody)
+	}
+	for i := range h.Steps {
+		c03FillOracleExt(&h.Steps[i], all)
+	}
+}
+
 func TestVerifC03E2E(t *testing.T) {
 	out := vfOpen(t)
 	defer out.Close()
-	for _, sc := range vfStored("e2e") {
-		var in c03In
-		if err := json.Unmarshal(sc.In, &in); err != nil {
-			t.Fatal(err)
+	for _, sc := range vfStored("") {
+		switch sc.Grp {
+		case "e2e":
+			var in c03In
+			if err := json.Unmarshal(sc.In, &in); err != nil {
+				t.Fatal(err)
+			}
+			c03FillOracle(&in)
+			out.Emit(vfCase{ID: sc.ID, Src: sc.Src, Grp: "e2e", In: in, Obs: c03Run(in)})
+		case "hist":
+			var h c03HistIn
+			if err := json.Unmarshal(sc.In, &h); err != nil {
+				t.Fatal(err)
+			}
+			c03FillHistOracles(&h)
+			out.Emit(vfCase{ID: sc.ID, Src: sc.Src, Grp: "hist", In: h, Obs: c03RunHist(&h)})
 		}
-		c03FillOracle(&in)
-		out.Emit(vfCase{ID: sc.ID, Src: sc.Src, Grp: "e2e", In: in, Obs: c03Run(in)})
 	}
 	if vfReplayOnly() {
 		return
@@ -686,9 +895,14 @@ func TestVerifC03E2E(t *testing.T) {
 	}
 	n := vfN(200)
 	for i := 0; i < n; i++ {
+		if i%10 == 3 {
+			h := c03GenHist(root.Fork(i), adv)
+			out.Emit(vfCase{ID: fmt.Sprintf("%s-hist-%d", src, i), Src: src, Grp: "hist", In: h, Obs: c03RunHist(&h)})
+			continue
+		}
 		var in c03In
-		if i%15 == 7 {
-			in = c03GenBoundary(root.Fork(i), i/15)
+		if i%20 == 7 {
+			in = c03GenBoundary(root.Fork(i), i/20)
 		} else {
 			in = c03Gen(root.Fork(i), adv)
 		}
